@@ -136,7 +136,7 @@ func c02Context() map[string]stick.Value {
 		"things": []gen.Thing{th}, "nested": map[string]stick.Value{"in": map[string]stick.Value{"k": []int{1}}},
 		"ks": map[gen.KeyStr]int{"a": 1}, "ki": map[gen.KeyInt]string{1: "one"}, "dn": gen.KeyInt(2), "ds": gen.KeyStr("a"), "db": gen.NamedBool(true), "nsl": gen.NamedSlice{5, 6},
 		"ov": gen.OuterVal{Inner: gen.Inner{Name: "in", N: 1}, Extra: 2}, "op": gen.OuterPtr{Inner: &gen.Inner{Name: "ep", N: 5}, Extra: 6}, "onil": gen.OuterPtr{Extra: 7}, "oi": gen.OuterIface{Any: []int{1}},
-		"cyc": cyclicMap(), "cycs": cyclicSlice(), "cycp": cyclicStruct(),
+		"cyc": cyclicMap(), "cycs": cyclicSlice(), "cycp": cyclicStruct(), "cychold": gen.OuterIface{Any: cyclicMap()}, "cycholdp": &gen.OuterIface{Any: cyclicSlice()},
 		"str": gen.ValStringer{S: "st"}, "safe": stick.NewSafeValue("<b>", "html"), "tm": time.Date(2021, 3, 4, 5, 6, 7, 0, time.UTC), "nilm": map[string]stick.Value(nil),
 		"mnan": map[float64]string{math.NaN(): "a", 1: "b"}, "mif": map[interface{}]stick.Value{"a": 1, 2: "b", nil: 3, math.NaN(): 4, [2]int{1, 2}: 5}, "mbool": map[bool]int{true: 1, false: 0},
 		"enil": gen.EmbedsIfaces{}, "enilp": &gen.EmbedsIfaces{}, "eptr": gen.EmbedsStringerPtr{Tag: "t"}, "onilp": &gen.OuterPtr{Extra: 8},
@@ -169,6 +169,8 @@ func detContext() map[string]stick.Value {
 	c := c02Context()
 	c["m"] = map[string]stick.Value{"k": "v"}
 	delete(c, "cyc") // two entries: iteration order
+	delete(c, "cychold")
+	delete(c, "cycholdp")
 	c["mnan"] = map[float64]string{math.NaN(): "a"}
 	c["mif"] = map[interface{}]stick.Value{math.NaN(): 4}
 	c["mbool"] = map[bool]int{true: 1}
@@ -217,6 +219,9 @@ func (p *c02) Describe(i int) interface{} {
 	return map[string]interface{}{"kind": "random-program", "twig_env": tw, "templates": gen.DescribeTemplates(ts)}
 }
 
+// c02MainNames: what the hand-written templates are called.
+var c02MainNames = []string{"main", "main.html", "main.js.twig", "twig", ".twig", "twig.twig", ".", "..", "a.", "x/.twig", "main.txt", "noext", ".html", "a..b", "twig.", ".twig.twig", "main", "t.url", "a/b/c", "/", "./twig", "x.twig/y", "é.js", "main.", "...", "main.css"}
+
 // c02Inc is what the hand-written templates include and embed.
 const c02Inc = "<{{ a }}{{ k }}{% block ib %}ib{% endblock %}{% set a = 1 %}{% for q in [1, 2] %}{{ loop.index }}{{ loop.parent }}{% endfor %}{{ _self }}>"
 
@@ -250,23 +255,26 @@ func (p *c02) Run(i int) (res fw.Result) {
 	switch {
 	case i < p.handN:
 		src := p.hand[i]
+		// the template goes by a name; whatever is derived from names (a content type, a directory) is derived from
+		// every name without accident
+		main := c02MainNames[i%len(c02MainNames)]
 		for _, tw := range []bool{false, true} {
 			var env *stick.Env
 			if tw {
-				env, _ = mon.NewTwigEnv(map[string]string{"main": src, "inc": c02Inc})
+				env, _ = mon.NewTwigEnv(map[string]string{main: src, "inc": c02Inc})
 			} else {
-				env, _ = mon.NewCoreEnv(map[string]string{"main": src, "inc": c02Inc})
+				env, _ = mon.NewCoreEnv(map[string]string{main: src, "inc": c02Inc})
 				for n, f := range twig.New(nil).Filters {
 					if _, ok := env.Filters[n]; !ok && n != "escape" {
 						env.Filters[n] = f
 					}
 				}
 			}
-			_, err, pan, steps := execNoPanic(env, "main", c02Context(), len(src)*8)
+			_, err, pan, steps := execNoPanic(env, main, c02Context(), len(src)*8)
 			res.Evals++
 			res.AddObs("exec_steps", steps)
 			if pan != nil {
-				res.Fail("panic", fmt.Sprintf("c02:hand:%v:%s", tw, src), fmt.Sprintf("Execute(%q) (twig=%v) panicked: %v", src, tw, pan), nil)
+				res.Fail("panic", fmt.Sprintf("c02:hand:%v:%s", tw, src), fmt.Sprintf("Execute(%q) under the name %q (twig=%v) panicked: %v", src, main, tw, pan), nil)
 			}
 			res.AddClass("hand/" + okOrErr(err))
 		}
